@@ -39,6 +39,7 @@ def margin_ok(d, edges, maxlag_abs, tol=1e-9, maxlag_derived=False):
         # a single pair sitting exactly on an edge is the pair the edge was derived from (largest distance, a quantile):
         # after an inexact transform the edge moves with it. Near misses and tied pairs can flip.
         single_exact = (near.sum(axis=0) == 1) & ((rel == 0).sum(axis=0) == 1)
+        single_exact[:-1] = False      # inner edges are not derived from one pair: an exact hit there is a coincidence
         ok = bool(np.all((near.sum(axis=0) == 0) | single_exact))
     if ok and maxlag_abs is not None:
         relm = np.abs(d - maxlag_abs) / max(1.0, abs(maxlag_abs))
